@@ -117,6 +117,9 @@ EXPLANATION += c18_args.explanation(["get_args", "cmd"], "train_model.get_args a
     "cast_dict_to_type, str_to_bool and the introspection functions are linked in Props/C18.v (their primitives are listed in C18's evidence).  "
     "Runtime: get_args() is run on generated command lines (kind cli_args): model_cls is the class named, model_params are typed by its annotations.  ")
 
+THEOREMS.update(c18_args.parser_theorems('C04', {'train_model': ['fields', 'dests_derived', 'dests_distinct', 'seed', 'coordinates', 'params']}))
+EXPLANATION += c18_args.parser_explanation(['train_model'])
+
 SDC = "sdc"
 INT = "interaction"
 SPECIALS = ["nan", "inf", "-inf"]
